@@ -273,8 +273,18 @@ func ExecuteReplay(eng Engine, rf *ReplayFile) (*Run, *RunResult) {
 		return r, r.finish(res, nil)
 	}
 	var vs []Violation
+	known := loadKnown()
 	for _, s := range rf.Steps {
 		vs = r.step(s)
+		// as in Execute, recorded findings do not end the run - unless the replay is of that finding
+		var keep []Violation
+		for _, v := range vs {
+			if isKnown(known, rf.Property, v) != nil && (rf.Violation == nil || rf.Violation.ID() != v.ID()) {
+				continue
+			}
+			keep = append(keep, v)
+		}
+		vs = keep
 		if len(vs) > 0 || r.Foreign != "" {
 			break
 		}
